@@ -451,7 +451,7 @@ End GeoUnweighted.
 
 Theorem geomean_value_sound xs g : (length xs <= 64)%nat ->
   g_check xs (geomean xs) 0 (XFin g) <> 2%Z -> geomean xs <> GNaN ->
-  0 < g /\ Qabs (Qpw g (length xs) - Qprod xs) <= geo_rel (length xs) * Qprod xs.
+  0 < g /\ Qabs (Qpw g (length xs) - Qprod xs) <= geo_scale xs * geo_rel (length xs) * Qprod xs.
 Proof.
   intros L64 G NN. unfold g_check in G. destruct (geomean xs) as [|cs] eqn:GM; [congruence|]. clear NN.
   destruct (geomean_coeffs xs cs GM) as (Lc & Fc & Fx).
@@ -527,7 +527,7 @@ Qed.
 Definition geo_power_ok (xs cs : list Q) (g : Q) : Prop :=
   exists (D : nat) (es : list nat), (0 < D)%nat /\ length es = length cs /\
     Forall2 (fun e c => Qofnat e == c * Qofnat D) es cs /\
-    Qabs (Qpw g D - Qprodpow xs es) <= geo_rel_D D (length xs) * Qprodpow xs es.
+    Qabs (Qpw g D - Qprodpow xs es) <= geo_scale xs * geo_rel_D D (length xs) * Qprodpow xs es.
 
 Theorem geo_check_power xs cs g : Forall (fun c => 0 <= c) cs -> (lcm_dens cs <= 64)%Z ->
   geo_check xs cs (XFin g) <> 2%Z -> 0 < g /\ geo_power_ok xs cs g.
@@ -611,7 +611,7 @@ Qed.
 Definition wgeo_power_ok (xs ws : list Q) (g : Q) : Prop :=
   exists (D : nat) (es : list nat), (0 < D)%nat /\ length es = length ws /\
     Forall2 (fun e w => Qofnat e * Qsum ws == w * Qofnat D) es ws /\          (* e_i / D = w_i / W *)
-    Qabs (Qpw g D - Qprodpow xs es) <= geo_rel_D D (length xs) * Qprodpow xs es.
+    Qabs (Qpw g D - Qprodpow xs es) <= geo_scale xs * geo_rel_D D (length xs) * Qprodpow xs es.
 
 Lemma used_coeffs : forall (xs cs ws : list Q) W, 0 < W -> Forall2 (fun c w => c * W == w) cs ws ->
   used (combine xs cs) = used (combine xs ws).
@@ -687,7 +687,7 @@ Definition geo_ok (xs : list Q) (o : xreal) : Prop :=
   ((xs = [] \/ exists x, In x xs /\ x <= 0) -> o = XNaN) /\
   (xs <> [] -> (forall x, In x xs -> 0 < x) ->
      exists g, o = XFin g /\ 0 < g /\
-       ((length xs <= 64)%nat -> Qabs (Qpw g (length xs) - Qprod xs) <= geo_rel (length xs) * Qprod xs) /\
+       ((length xs <= 64)%nat -> Qabs (Qpw g (length xs) - Qprod xs) <= geo_scale xs * geo_rel (length xs) * Qprod xs) /\
        ((64 < length xs)%nat -> geo_bracket_ok xs g)).
 (* Sample.GeoMean; weighted (non-negative weights, one per value): NaN exactly when a value <= 0 carries weight
    (wnonpos) or nothing carries weight (total weight 0) — a non-positive value of weight zero is ignored —; otherwise a
